@@ -9,7 +9,8 @@ construction (all model functions are structurally recursive).
 
   load_total        the loader never faults
   load_inv          every section / segment of the result satisfies `LoadedSec` / `LoadedSeg`
-  load_alloc_bound  no allocation request exceeds len+1   (no translation, len < 2^64)
+  load_alloc_bound  no allocation request exceeds len+1   (len < 2^64; with or without an address
+                    translation table — `len` is the length of the stream that is read)
   load_alloc_shape  every request is size+1 for a byte range inside the input, so a request of
                     exactly len+1 bytes is for the range [0, len) (finding F11)
   getData_inv       arbitrary interleavings of (lazy) data requests and free_data() keep the
@@ -121,7 +122,7 @@ theorem seg_exposes_only_file_bytes {tr img} {g : Seg} (h : LoadedSeg tr g img) 
     the range `[0, len)` — a section or segment that covers the whole input (finding F11: the
     loader's NUL terminator makes the literal "not larger than the input" fail by one byte). -/
 theorem load_alloc_shape (o : Obj) (img : Bytes) (kind : StreamKind) (isLazy : Bool) (r : LoadRes)
-    (htr : o.trans = []) (hlen : img.length < 18446744073709551616)
+    (hlen : img.length < 18446744073709551616)
     (h : load o { data := img, kind := kind } isLazy = .ok r) :
     ∀ a ∈ r.allocs, ∃ off size : Nat, a = size + 1 ∧ off + size ≤ img.length ∧
       (a = img.length + 1 ↔ off = 0 ∧ size = img.length) := by
@@ -130,16 +131,16 @@ theorem load_alloc_shape (o : Obj) (img : Bytes) (kind : StreamKind) (isLazy : B
   cases hr
   intro a ha
   obtain ⟨off, size, h1, h2⟩ := hp.allocs a ha
-  have h3 : off + size ≤ img.length := h2 htr hlen
+  have h3 : off + size ≤ img.length := h2 hlen
   exact ⟨off, size, h1, h3, by omega⟩
 
 /-- No single data buffer requested during a load is larger than the input plus one byte. -/
 theorem load_alloc_bound (o : Obj) (img : Bytes) (kind : StreamKind) (isLazy : Bool) (r : LoadRes)
-    (htr : o.trans = []) (hlen : img.length < 18446744073709551616)
+    (hlen : img.length < 18446744073709551616)
     (h : load o { data := img, kind := kind } isLazy = .ok r) :
     ∀ a ∈ r.allocs, a ≤ img.length + 1 := by
   intro a ha
-  obtain ⟨off, size, h1, h2, -⟩ := load_alloc_shape o img kind isLazy r htr hlen h a ha
+  obtain ⟨off, size, h1, h2, -⟩ := load_alloc_shape o img kind isLazy r hlen h a ha
   omega
 
 /-! ### data requests after the load (lazy loads mutate the object) -/
@@ -201,9 +202,9 @@ theorem freeData_inv {tr img} {b : SecBuf} (h : LoadedSec tr b img) : LoadedSec 
   unfold SecBuf.freeData
   split
   · refine ⟨fun d hd => (by simp at hd), fun d hd => (by simp at hd), fun d hd => (by simp at hd), ?_⟩
-    rcases h.ss with h1 | ⟨h1, h2⟩
+    rcases h.ss with h1 | ⟨h1, h2, -⟩
     · exact Or.inl h1
-    · exact Or.inr ⟨h1, fun ht => ⟨(h2 ht).1, rfl⟩⟩
+    · exact Or.inr ⟨h1, h2, rfl⟩
   · exact h
 
 theorem segFree_inv {tr img} {g : Seg} (h : LoadedSeg tr g img) : LoadedSeg tr (segFree g) img := by
@@ -282,13 +283,13 @@ theorem getData_inv (img : Bytes) (qs : List Req) :
     · exact h3 a ha
     · exact h2 ▸ h5 a ha
 
-/-- … in particular (no translation) none of them exceeds `len + 1`. -/
+/-- … in particular none of them exceeds `len + 1` (with or without address translation). -/
 theorem getData_alloc_bound (img : Bytes) (qs : List Req) (o : Obj) (h : ObjInv o img)
-    (htr : o.trans = []) (hlen : img.length < 18446744073709551616) :
+    (hlen : img.length < 18446744073709551616) :
     ∀ a ∈ (requests o qs).2, a ≤ img.length + 1 := by
   intro a ha
   obtain ⟨off, size, h1, h2⟩ := (getData_inv img qs o h).2 a ha
-  have := h2 htr hlen
+  have := h2 hlen
   omega
 
 /-! ### the string reader on loaded sections -/
